@@ -112,10 +112,8 @@ def rule_nowrite(ctx, body):
 def run(ctx):
     f = ctx.facts
     st, cap = eqhash.rule_H_STORAGE(ctx)
-    for dep, summ in DEP_SUMMARIES.items():
-        v = dep_version(dep.split("::")[0])
-        if v != summ["version"]:
-            raise AnchorMissing("dependency summary for %s was read from version %s, Cargo.lock pins %s" % (dep, summ["version"], v))
+    import deps
+    deps.require_nar_dev_utils(ctx, ["src/opt_res_boost/result.rs"])
     ctx.rule("K-MUTATOR", "set_atom_name: the arm that clears+pushes the name covers exactly the String-storage variants and returns Ok; "
              "Placeholder returns Ok without a write; Interval parses with str::parse::<usize> and writes only in the Ok continuation; every "
              "other variant returns Err. get_atom_name_unchecked returns the stored name verbatim. push_components: vec.extend for exactly the "
